@@ -2,6 +2,7 @@ import RModel.Base.Lit
 import RModel.Model.History
 import RModel.Model.HistorySpec
 import RModel.Model.HistoryTree
+import RModel.Model.HistoryTreeDir
 import RModel.Lemmas.History
 import RModel.Lemmas.HistoryStatus
 import RModel.Lemmas.HistoryRefine
@@ -34,6 +35,9 @@ import RModel.Lemmas.HistoryTree
      in-place clauses are no longer needed for "or is rejected leaving tree and history unchanged" (that part is B,
      unconditional); they remain only for "the tree is exactly the recorded pre- or post-state", which for an undo/redo that
      succeeds out of place is not what the history implies anyway (the check's oracle uses the per-file reading there).
+  D'. the directory instance used by the driver for workspaces with a renamed directory (`HistoryTreeDir`): kernel-evaluated
+     `dir_rename_undo_roundtrip`, `dir_stale_redo_refused`, `dir_undo_older_refused`.  The theorems of A–C hold for it as for
+     every tree side; its round-trip law (the hypothesis of C) is not proved, only compared with the CLI.
   D. before / after theorems for the four repaired defects and for the two proposed pre-validations.
 -/
 namespace C10
@@ -379,6 +383,47 @@ theorem early_check_alone_keeps_redo_twice :
 /-- … and "redo only once" alone does not stop the same-second rename. -/
 theorem redo_once_alone_keeps_same_second :
     (run { Cfg.beforeFixes with redoOnce := true } ops (start t0) [renA', renA']).2 = [.ok, .failed] := by decide
+
+-- the directory instance (workspace W5 of the check) ---------------------------------------------------------------
+
+/-- a directory whose name contains the term, holding a file that is edited but not renamed, next to a top-level edited
+    file that sorts before it -/
+def t5 : HistoryTree.Tree :=
+  [(b!"a.txt", b!"foo_bar top\n"), (b!"foo_bar_dir/inner.txt", b!"one foo_bar x\n"), (b!"z.txt", b!"alpha z\n")]
+
+def renS : C := .rename b!"one" b!"three"
+
+/-- A edits both files and renames the directory; undo brings everything back, directory included. -/
+theorem dir_rename_undo_roundtrip :
+    (run .full HistoryTreeDir.ops (HistoryTreeDir.start t5) [renA]).1.tree
+      = [(b!"a.txt", b!"baz_qux top\n"), (b!"baz_qux_dir/inner.txt", b!"one baz_qux x\n"), (b!"z.txt", b!"alpha z\n")] ∧
+    (run .full HistoryTreeDir.ops (HistoryTreeDir.start t5) [renA, .tick, .undo .latest]).2 = [.ok, .noop, .ok] ∧
+    (run .full HistoryTreeDir.ops (HistoryTreeDir.start t5) [renA, .tick, .undo .latest]).1.tree = HistoryTree.normalize t5 := by
+  decide
+
+/-- A, undo, then S shifts A's match in the in-directory file: the redo of A is refused with nothing touched.  Without
+    the hunk-by-hunk pre-validation (e.g. a pre-check that only compares the checksums the undo recorded, which do not
+    cover the in-directory file: seeded/C10d) the top-level file is re-edited before the in-directory file fails. -/
+theorem dir_stale_redo_refused :
+    (run .full HistoryTreeDir.ops (HistoryTreeDir.start t5) [renA, .tick, .undo .latest, .tick, renS, .tick, .redo (.id idA)]).2
+      = [.ok, .noop, .ok, .noop, .ok, .noop, .rejected] ∧
+    (run .full HistoryTreeDir.ops (HistoryTreeDir.start t5) [renA, .tick, .undo .latest, .tick, renS, .tick, .redo (.id idA)]).1.tree
+      = [(b!"a.txt", b!"foo_bar top\n"), (b!"foo_bar_dir/inner.txt", b!"three foo_bar x\n"), (b!"z.txt", b!"alpha z\n")] ∧
+    (run { Cfg.full with redoPrevalidate := false } HistoryTreeDir.ops (HistoryTreeDir.start t5)
+      [renA, .tick, .undo .latest, .tick, renS, .tick, .redo (.id idA)]).2
+      = [.ok, .noop, .ok, .noop, .ok, .noop, .failed] ∧
+    (run { Cfg.full with redoPrevalidate := false } HistoryTreeDir.ops (HistoryTreeDir.start t5)
+      [renA, .tick, .undo .latest, .tick, renS, .tick, .redo (.id idA)]).1.tree
+      = [(b!"a.txt", b!"baz_qux top\n"), (b!"foo_bar_dir/inner.txt", b!"three foo_bar x\n"), (b!"z.txt", b!"alpha z\n")] := by
+  decide
+
+/-- an undo of A while a later S still holds the in-directory file is refused as well, and works once S is undone -/
+theorem dir_undo_older_refused :
+    (run .full HistoryTreeDir.ops (HistoryTreeDir.start t5) [renA, .tick, renS, .tick, .undo (.id idA), .undo .latest, .tick, .undo (.id idA)]).2
+      = [.ok, .noop, .ok, .noop, .rejected, .ok, .noop, .ok] ∧
+    (run .full HistoryTreeDir.ops (HistoryTreeDir.start t5) [renA, .tick, renS, .tick, .undo (.id idA), .undo .latest, .tick, .undo (.id idA)]).1.tree
+      = HistoryTree.normalize t5 := by
+  decide
 
 -- the refinement on the concrete tree side ---------------------------------------------------------------------------
 
